@@ -6,6 +6,7 @@ import (
 	"go/token"
 	"go/types"
 	"sort"
+	"strconv"
 	"strings"
 	"unicode/utf8"
 
@@ -270,7 +271,8 @@ func (x *Exec) constVal(c *ssa.Const) Val {
 		return cbool(constant.BoolVal(c.Value))
 	}
 	if isFloat(t) {
-		return OpaqueV{Kind: "float", Key: "const:" + c.Value.ExactString()}
+		fv, _ := constant.Float64Val(constant.ToFloat(c.Value))
+		return OpaqueV{Kind: "float", Key: "f:" + strconv.FormatFloat(fv, 'g', -1, 64), F: &fv}
 	}
 	panic(unsupported{"const " + c.String()})
 }
@@ -475,10 +477,16 @@ func (x *Exec) convert(v Val, from, to types.Type) Val {
 		}
 	}
 	if isFloat(to) {
-		if _, _, ok := bvWidth(from); ok {
+		if _, sf, ok := bvWidth(from); ok {
 			b := v.(BV)
 			if b.Con {
-				return OpaqueV{Kind: "float", Key: fmt.Sprintf("int:%d", sext(b))}
+				var fv float64
+				if sf {
+					fv = float64(sext(b))
+				} else {
+					fv = float64(b.C)
+				}
+				return OpaqueV{Kind: "float", Key: "f:" + strconv.FormatFloat(fv, 'g', -1, 64), F: &fv}
 			}
 			return OpaqueV{Kind: "float", Key: "int:" + b.T, Src: b}
 		}
@@ -541,7 +549,10 @@ func (x *Exec) convert(v Val, from, to types.Type) Val {
 }
 
 func (x *Exec) opaqueToInt(v Val, w int) Val {
-	panic(unsupported{"float -> int conversion"})
+	if o, ok := v.(OpaqueV); ok && o.F != nil {
+		return cbv(w, uint64(int64(*o.F)))
+	}
+	panic(unsupported{"float -> int conversion of a symbolic float"})
 }
 
 func (x *Exec) mapLookup(m *MapV, k Val) (*MapEnt, bool) {
